@@ -599,6 +599,104 @@ theorem C03_request_roundtrip_query_only (Cq : AsciiCodec) (qe : Charset) (hqe :
   unfold handle
   simp only [recodeQS_utf8, hqe, hq.1]
 
+
+/-! ## every accepted request, well-formed or not -/
+
+/-- Decode every non-empty piece of a query string, or fail as a whole. -/
+def decodeQ (dec : Bytes → Option Text) : List Text → Option (List (Text × Text))
+  | [] => some []
+  | nv :: rest =>
+    if nv.isEmpty then decodeQ dec rest
+    else
+      match unquotePlusText dec (partition1 '=' nv).1,
+            unquotePlusText dec ((partition1 '=' nv).2.getD []), decodeQ dec rest with
+      | some n, some v, some more => some ((n, v) :: more)
+      | _, _, _ => none
+
+theorem parseQsPairs_eq (dec : Bytes → Option Text) (l : List Text) (d : Params) :
+    parseQsPairs dec l d = (decodeQ dec l).map (addAll d) := by
+  induction l generalizing d with
+  | nil => simp [parseQsPairs, decodeQ, addAll]
+  | cons nv rest ih =>
+    simp only [parseQsPairs, decodeQ]
+    by_cases he : nv.isEmpty = true
+    · simp only [he, if_true, ih]
+    · simp only [he, Bool.false_eq_true, if_false]
+      cases hp : partition1 '=' nv with
+      | mk n v? =>
+        simp only
+        cases hn : unquotePlusText dec n with
+        | none => simp
+        | some name =>
+          cases hv : unquotePlusText dec (v?.getD []) with
+          | none => simp
+          | some value =>
+            simp only [ih]
+            cases decodeQ dec rest with
+            | none => simp
+            | some more => simp [addAll]
+
+theorem nodup_keys_mergeOne (rp : Params) (k : Text) (v : Val) (h : (keys rp).Nodup) :
+    (keys (mergeOne rp k v)).Nodup := by
+  unfold mergeOne
+  split <;> exact nodup_keys_assign _ _ _ h
+
+theorem nodup_keys_mergeBody (rp body : Params) (h : (keys rp).Nodup) : (keys (mergeBody rp body)).Nodup := by
+  induction body generalizing rp with
+  | nil => exact h
+  | cons e rest ih => exact ih _ (nodup_keys_mergeOne rp _ _ h)
+
+/-- **Every request whose handler is called** (well-formed escapes or not, any bytes, any charsets):
+    unless the query is an image map, there are a list `qp` — the complete in-order decoding of the
+    non-empty query pieces — and a list `bp` — the complete in-order decoding of the body pairs under
+    one single attempted charset (empty without a body) — such that the keyword arguments are a proper
+    dict in which every key carries exactly `valuesOf key (qp ++ bp)`: query values, then body
+    values, wire order, scalar for one, flat list for several, nothing else. -/
+theorem C03_handler_sees_exactly (r : Req) (kw : Params) (h : handle r = .handler kw)
+    (hnot : imageMap? (recodeQS r.qs) = none) :
+    ∃ qp bp,
+      decodeQ (decode r.qsEnc) (pairStrings (recodeQS r.qs)) = some qp ∧
+      ((r.body = none ∧ bp = []) ∨
+       (∃ att bytes dec, r.body = some (att, bytes) ∧ dec ∈ att.map decode ∧ Decoded dec (rawPairs bytes) bp)) ∧
+      (keys kw).Nodup ∧
+      ∀ key, lookup kw key = shape (valuesOf key (qp ++ bp)) := by
+  have hq0 : parseQueryString (decode r.qsEnc) (recodeQS r.qs)
+      = (decodeQ (decode r.qsEnc) (pairStrings (recodeQS r.qs))).map (addAll []) := by
+    unfold parseQueryString
+    rw [hnot]
+    exact parseQsPairs_eq _ _ _
+  rcases C03_handle_cases r with ⟨_, h1⟩ | ⟨qparams, hq, ⟨hb, h1⟩ | ⟨att, bytes, hb, ⟨_, h1⟩ | ⟨bparams, hp, h1⟩⟩⟩
+  · rw [h1] at h; cases h
+  · rw [h1] at h
+    cases h
+    rw [hq0] at hq
+    cases hd : decodeQ (decode r.qsEnc) (pairStrings (recodeQS r.qs)) with
+    | none => rw [hd] at hq; cases hq
+    | some qp =>
+      rw [hd] at hq
+      simp only [Option.map_some, Option.some.injEq] at hq
+      subst hq
+      refine ⟨qp, [], rfl, Or.inl ⟨hb, rfl⟩, nodup_keys_addAll [] (by simp [keys]) qp, ?_⟩
+      intro key
+      have := lookup_addAll [] WS_nil qp key
+      simpa [lookup, atomsOpt] using this
+  · rw [h1] at h; cases h
+  · rw [h1] at h
+    cases h
+    rw [hq0] at hq
+    cases hd : decodeQ (decode r.qsEnc) (pairStrings (recodeQS r.qs)) with
+    | none => rw [hd] at hq; cases hq
+    | some qp =>
+      rw [hd] at hq
+      simp only [Option.map_some, Option.some.injEq] at hq
+      subst hq
+      obtain ⟨pre, dec, post, bp, hatt, _, hdec, hbp⟩ := C03_all_or_nothing_accepted _ _ _ hp
+      subst hbp
+      refine ⟨qp, bp, rfl, Or.inr ⟨att, bytes, dec, hb, by rw [hatt]; simp, hdec⟩,
+        nodup_keys_mergeBody _ _ (nodup_keys_addAll [] (by simp [keys]) qp), ?_⟩
+      intro key
+      exact C03_merge qp bp key
+
 /-- `decode` instances the two theorems above apply to. -/
 example : decode .utf8 = utf8Ascii.dec ∧ decode .latin1 = latin1Ascii.dec ∧ decode .ascii = asciiAscii.dec ∧
     decode .utf8 = utf8Codec.dec ∧ decode .latin1 = latin1Codec.dec ∧
